@@ -144,6 +144,9 @@ Proof.
   pose proof (flat_heap _ H) as F. eapply Forall_nth_error in G; [|exact F]. destruct c; simpl in G; tauto.
 Qed.
 
+Lemma set_heap_same_flat d : flat_d d -> flat_d (set_heap d (d_heap d)).
+Proof. intros (A & B & C & D & E). repeat split; assumption. Qed.
+
 (* ---------- list lengths ---------- *)
 Lemma zlen_remove_nth {A} n (l : list A) x : nth_error l n = Some x -> zlen (remove_nth n l) = zlen l - 1.
 Proof.
@@ -232,6 +235,8 @@ Ltac learnf :=
       let F := fresh "F" in pose proof (flat_es _ H) as F; rewrite E in F;
       apply (f_equal (@zlen item)) in E; rewrite ?zlen_cons' in E
   | F : Forall prim (_ :: _) |- _ => inv F
+  | H : flat_d ?d, E : context [set_heap ?d (d_heap ?d)] |- _ =>
+      lazymatch goal with K : flat_d (set_heap d (d_heap d)) |- _ => fail | _ => pose proof (set_heap_same_flat d H) end
   | H : flat_d ?d, E : nth_error (d_es ?d) _ = Some ?x |- _ =>
       lazymatch goal with K : prim x |- _ => fail | _ => pose proof (Forall_nth_error _ _ _ _ (flat_es _ H) E) end
   | H : flat_d ?d, E : roll _ (d_es ?d) = Some ?es' |- _ =>
